@@ -1,6 +1,8 @@
 import FitModel.Decode
 import FitModel.Items
 import FitModel.LatLng
+import FitModel.Encode
+import FitModel.Parse
 import FitModel.Gen.Profile
 /-
   Line-protocol driver: one case per input line, one canonical result line per case.
@@ -223,8 +225,72 @@ def runHdr (a : List String) : String :=
     | _, _, _, _, _, _ => "bad-hdr"
   | _ => "bad-hdr"
 
+/-! ### encoder ops -/
+
+def archOf (s : String) : Endian := if s == "1" then .be else .le
+
+/-- content of a File without header and CRC sections (they change with the serialisation) -/
+def renderContent (f : FileSt) : String :=
+  let secs := splitOnChar (f.render P) ';'
+  joinWith ";" (secs.filter fun x => !(x.startsWith "H" || x.startsWith "C"))
+
+def encTag : EncRes → String
+  | .ok _ _ => "ok"
+  | .error => "err"
+  | .panic => "panic"
+
+/-- `enc <arch> <file dump>`: bytes written, and the File's header / CRC fields afterwards -/
+def runEnc (arch dump : String) : String :=
+  match parseFile P dump with
+  | none => "bad-file"
+  | some f =>
+    match encode P (archOf arch) f with
+    | .ok bs f' => s!"ok {hexOf bs} H{f'.hdr.render} C{f'.crc}"
+    | .error => "err - - -"
+    | .panic => "panic - - -"
+
+/-- `rt <arch> <file dump>`: Encode, then Decode of the written bytes -/
+def runRt (arch dump : String) : String :=
+  match parseFile P dump with
+  | none => "bad-file"
+  | some f =>
+    match encode P (archOf arch) f with
+    | .ok bs _ =>
+      let (out, r') := decode P {} .full {} (Reader.ofBytes bs)
+      s!"ok {outcomeTag out} {r'.pos} {renderFileOpt out.st.file}"
+    | .error => "err - - -"
+    | .panic => "panic - - -"
+
+/-- `c07 <arch> <hex>`: Decode; re-Encode; CheckIntegrity; Decode; Encode in the other byte
+    order; Decode — tags of every stage and the content of generations 1, 2 and 3 -/
+def runC07 (arch hex : String) : String :=
+  match unhex hex with
+  | none => "bad-hex"
+  | some data =>
+    let (d1, _) := decode P {} .full {} (Reader.ofBytes data)
+    match d1.err, d1.panic, d1.st.file with
+    | none, false, some f1 =>
+      match encode P (archOf arch) f1 with
+      | .ok b1 _ =>
+        let (i1, _) := decode P {} .crcOnly {} (Reader.ofBytes b1)
+        let (d2, _) := decode P {} .full d1.st.glob (Reader.ofBytes b1)
+        match d2.err, d2.panic, d2.st.file with
+        | none, false, some f2 =>
+          let other : Endian := if arch == "1" then .le else .be
+          match encode P other f2 with
+          | .ok b2 _ =>
+            let (d3, _) := decode P {} .full d2.st.glob (Reader.ofBytes b2)
+            s!"d1=ok e1=ok i1={outcomeTag i1} d2=ok e2=ok d3={outcomeTag d3} X1={renderContent f1} X2={renderContent f2} X3={match d3.st.file with | some f3 => renderContent f3 | none => "nil"}"
+          | r => s!"d1=ok e1=ok i1={outcomeTag i1} d2=ok e2={encTag r}"
+        | _, _, _ => s!"d1=ok e1=ok i1={outcomeTag i1} d2={outcomeTag d2}"
+      | r => s!"d1=ok e1={encTag r}"
+    | _, _, _ => s!"d1={outcomeTag d1}"
+
 def runLine (line : String) : String :=
   match splitOnChar line ' ' with
+  | ["enc", arch, dump] => runEnc arch dump
+  | ["rt", arch, dump] => runRt arch dump
+  | ["c07", arch, hex] => runC07 arch hex
   | "hdr" :: rest => runHdr rest
   | ["ll", which, s] => runLL which s
   | ["tm", s] => runTm s
